@@ -15,7 +15,7 @@ import (
 func init() {
 	Registry["C17"] = RuleDef{Module: ".", Run: runC17,
 		Technique:   "sibling agreement (sizer / writer / reader) on switch partitions and layout constants (go/types + AST), cursor-threading flow and bounds prover with an inductive cursor invariant on go/ssa",
-		Explanation: "Decides (R17a) that cachesize, serialize and unmarshalView switch on the message type with identical case partitions (scalar / aggregate / default string class), that the per-node header size counted by the sizer equals the bytes emitted by the writer and the bytes consumed by the reader (1 type byte + 8 length bytes, same byte order object), that string classes are written and read with the same length operand, that aggregates recurse over their children threading the cursor, and that CacheSize, CacheMarshal and CacheUnmarshalView agree on the 7 expiry bytes; (R17b) that every index and slice of the buffer in unmarshalView / CacheUnmarshalView is in bounds on every path (under the inductive invariant cursor >= 0 and the writer-established assumption that stored sizes are non-negative), and that every failing length guard returns ErrCacheUnmarshal.",
+		Explanation: "Decides (R17a) that cachesize, serialize and unmarshalView switch on the message type with identical case partitions (scalar / aggregate / default string class), that the per-node header size counted by the sizer equals the bytes emitted by the writer and the bytes consumed by the reader (1 type byte + 8 length bytes, same byte order object), that string classes are written and read with the same length operand, that aggregates recurse over their children threading the cursor, and that CacheSize, CacheMarshal and CacheUnmarshalView agree on the 7 expiry bytes; (R17b) that every index and slice of the buffer in unmarshalView / CacheUnmarshalView is in bounds on every path (under the inductive invariant cursor >= 0 and the writer-established assumption that stored sizes are non-negative), and that every failing length guard returns ErrCacheUnmarshal. (R17c) the deserialiser sets the payload of the message on every successful path of every type class (also for an aggregate with zero elements); (R17d) CacheMarshal appends to the caller's buffer and allocates only for a nil buffer.",
 		NotDecided:  "value equality of the reconstructed tree; buffers that are corrupted rather than truncated (a negative or huge stored size)."}
 }
 
@@ -58,6 +58,7 @@ func switchPartition(pk *types.Info, fd *ast.FuncDecl) ([]string, bool) {
 }
 
 func runC17(r *Report) {
+	payloadSetRule(r)
 	p := r.P
 	names := []string{"rueidis.(*RedisMessage).cachesize", "rueidis.(*RedisMessage).serialize", "rueidis.(*RedisMessage).unmarshalView"}
 	parts := map[string][]string{}
@@ -355,4 +356,68 @@ func firstSliceUser(v ssa.Value) (*ssa.Slice, bool) {
 		}
 	}
 	return nil, false
+}
+
+// payloadSetRule (R17c): the cache deserialiser overwrites the payload of the message it fills on
+// every successful path of every type class (integer-like: intlen; aggregates: setValues, also for
+// zero elements; everything else: setString), so a decoded message never keeps parts of what the
+// receiver held before. (R17d) CacheMarshal appends to the caller's buffer: it substitutes a fresh
+// buffer only when the caller passed nil.
+func payloadSetRule(r *Report) {
+	if fn := r.FnAnchor("R17c", "rueidis.(*RedisMessage).unmarshalView"); fn != nil {
+		isSetter := func(in ssa.Instruction) bool {
+			if _, ok := CallTo(in, "rueidis.(*RedisMessage).setValues", "rueidis.(*RedisMessage).setString"); ok {
+				return true
+			}
+			if st, ok := in.(*ssa.Store); ok {
+				if _, f, base, isf := FieldRef(st.Addr); isf && f == "intlen" && Desc(base) == "p0" {
+					return true
+				}
+			}
+			return false
+		}
+		n := 0
+		for _, ret := range ReturnsAvoiding(fn, isSetter) {
+			n++
+			rv := RetVals(ret)
+			e := rv[len(rv)-1]
+			isErr := strings.HasSuffix(Desc(e), "ErrCacheUnmarshal")
+			r.ObSite("R17c", SiteOf(ret), "payload-set-on-every-successful-path", isErr, "a return that is reachable without setting the message's payload must be the format error")
+		}
+		r.Ob("R17c", fn, "payload-setters", fn.Pos(), len(Sites(fn, isSetter)) >= 3, fmt.Sprintf("one payload setter per type class; %d returns bypass them (all must be format errors)", n))
+	}
+	if fn := r.FnAnchor("R17d", "rueidis.(*RedisMessage).CacheMarshal"); fn != nil {
+		ok := false
+		why := "no bytes.NewBuffer call"
+		for _, s := range CallSites(fn, "bytes.NewBuffer") {
+			v := s.Call().Common().Args[0]
+			ok, why = true, ""
+			edges := []ssa.Value{v}
+			var preds []*ssa.BasicBlock
+			if ph, isphi := v.(*ssa.Phi); isphi {
+				edges = ph.Edges
+				preds = ph.Block().Preds
+			}
+			for i, e := range edges {
+				if Desc(e) == "p1" {
+					continue
+				}
+				if _, isms := Strip(e).(*ssa.MakeSlice); isms && preds != nil {
+					nilGuard := false
+					for _, g := range append(DomGuards(preds[i]), edgeGuards(preds[i], v.(*ssa.Phi).Block())...) {
+						if x, op, y, cok := CmpGuard(g); cok && op == token.EQL && IsNilConst(y) && Desc(x) == "p1" {
+							nilGuard = true
+						}
+					}
+					if nilGuard {
+						continue
+					}
+					ok, why = false, "the caller's buffer is replaced although it is not nil (its content is dropped)"
+					continue
+				}
+				ok, why = false, "unexpected buffer origin "+Desc(e)
+			}
+		}
+		r.Ob("R17d", fn, "appends-to-the-callers-buffer", fn.Pos(), ok, "CacheMarshal writes behind the content of the buffer it is given and allocates only for a nil buffer; "+why)
+	}
 }
